@@ -92,14 +92,36 @@ NEEDS3 = {
  "C18_a": "an AVX 'sanity check' in make_interpolator sets a process-wide never-cleared flag when a resampler with effective f_cutoff > ~1.4 is constructed: later sinc resamplers in the process use SSE",
  "C18_b": "FFT 'denormal clean-up' zeroes tiny overlap values on every 65536th unit counted by a process-wide static counter",
 }
+NEEDS4 = {
+ "C03_a": "FastFixedIn Nearest branch keeps only the lower limit of the ramped step: chunk*ratio^2 < ~0.1 (chunk 8 at ratio 0.05), a ramp towards a much lower ratio pending at a call that produces a frame and starts close to its end index -> get_unchecked past the buffer",
+ "C03_b": "SincFixedIn end margin from round() instead of ceil() of the largest step: oversampling factor 2 or 3 with Cubic/Quadratic (or 1 with Linear), step fraction in (0, 0.5), chunk at its construction size, last position in the last frame -> interpolator assertion panics",
+ "C04_a": "FftFixedIn::output_frames_max from the scaled chunk: one block short when downsampling with chunk = q*fft_in + r, 0 < r*fft_out < fft_in (sub_chunks >= 2); first shows when saved frames wrap, after about fft_in/r calls (250 in the demo)",
+ "C04_b": "SincFixedIn::output_frames_max follows the current chunk size: set_chunk_size(small), query, set_chunk_size(larger) or reset",
+ "C05_a": "FftFixedInOut copies input to output when both rates are equal: only rate_in == rate_out, compared against FftFixedIn/FftFixedOut",
+ "C05_b": "get_nearest_time rounds ties by the sign of the chunk-relative position: Nearest only, positions that are exact ties in binary (ratio 16 with factor 8, ratio 2 with factor 1), two chunkings",
+ "C06_a": "SincFixedIn end-of-call history move sized by the next call's step: ramped change to a higher ratio with ceil(old step) - ceil(new step) > sinc_len - 2 (old ratio below ~1/sinc_len)",
+ "C06_b": "FastFixedIn history move sized by the ramped loop variable: ramp to a higher ratio that completes inside one call: chunk of 1-4 frames, old ratio <= ~0.1, a call that produces a frame",
+ "C07_a": "FastFixedOut stores the f32-rounded ratio back after each call: relative rate error <= 2^-25, leaves the constant bound after ~1.5e8 frames at a ratio that f32 cannot represent",
+ "C07_b": "FastFixedIn stores the f32 copy of the ratio made for a trace line: same class, FixedIn ramp path, ~1.5e8 frames",
+ "C10_a": "FastFixedOut::reset clears lazily by an 8-bit generation counter: exactly 256*k resets during which a channel that carried audio is never active, then a call with it active",
+ "C10_b": "SincFixedIn::reset clears only from the restored read position: Cubic look-behind point, ratio above the oversampling factor at the first call after reset, window with non-zero edge tap",
+ "C11_a": "FftFixedOut zero-input fast path decides by output slice length, not by the mask: chunk_out < fft_size_out, a zero-input call, a masked channel with a full-length output slice",
+ "C11_b": "SincFixedIn all-false-mask stepping loop lacks the ramp clamp: constant all-false mask, a ramp that overshoots inside a small chunk, count differs by one tens of calls later",
+ "C16_a": "process_partial_into_buffer reuses the padded copy of channel 0 for a channel whose slice is pointer-identical to its predecessor: >= 3 channels, channel k >= 2 aliased to k-1, not to 0",
+ "C16_b": "process() runs dual-mono input (two pointer-identical slices, no mask) with mask [true,false] and clones the output: channel 1's state is not advanced, visible on the first call with distinct data",
+ "C18_a": "per-thread padded input buffer not restored when a call unwinds out of a user buffer accessor: next partial call of any same-typed resampler on that thread sees stale samples as padding",
+ "C18_b": "grow-only per-thread padded buffer, copy and clean-up clamp differently: a large partial call, then an over-long partial input to a smaller resampler, then a short partial call of a larger one, all on one thread",
+}
 ROUND = int(os.environ.get('SEEDED_ROUND', '1'))
 if ROUND == 2:
     NEEDS = NEEDS2
 if ROUND == 3:
     NEEDS = NEEDS3
-SRC_ROOT = {1: '/tmp/seeded-out', 2: '/tmp/seeded2-out', 3: '/tmp/seeded3-out'}[ROUND]
-LOGS = {1: ['/tmp/seeded-results.log'], 2: ['/tmp/seeded2-baseline.log', '/tmp/seeded2-new.log', '/tmp/seeded2-thorough.log', '/tmp/seeded2-final.log'], 3: ['/tmp/seeded3-new.log', '/tmp/seeded3-thorough.log', '/tmp/seeded3-final.log']}[ROUND]
-PREFIX = {1: '', 2: 'R2_', 3: 'R3_'}[ROUND]
+if ROUND == 4:
+    NEEDS = NEEDS4
+SRC_ROOT = {1: '/tmp/seeded-out', 2: '/tmp/seeded2-out', 3: '/tmp/seeded3-out', 4: '/tmp/seeded4-out'}[ROUND]
+LOGS = {1: ['/tmp/seeded-results.log'], 2: ['/tmp/seeded2-baseline.log', '/tmp/seeded2-new.log', '/tmp/seeded2-thorough.log', '/tmp/seeded2-final.log'], 3: ['/tmp/seeded3-new.log', '/tmp/seeded3-thorough.log', '/tmp/seeded3-final.log'], 4: ['/tmp/seeded4-new.log', '/tmp/seeded4-thorough.log', '/tmp/seeded4-final.log', '/tmp/seeded4-confirm.log']}[ROUND]
+PREFIX = {1: '', 2: 'R2_', 3: 'R3_', 4: 'R4_'}[ROUND]
 res = {}
 cur = None
 import itertools
@@ -144,8 +166,8 @@ for key in sorted(NEEDS):
     }
     json.dump(meta, open(f"{dst}/meta.json", "w"), indent=1)
     clause = re.search(r'clause=([\w<>=!\-]+)', final.get('detail', ''))
-    rows.append((PREFIX + key, p, ' / '.join(f"{r.get('stage','').replace('seeded2-','').replace('seeded-results','run')}:{r['verdict']}" for r in runs) or 'NOT-RUN', clause.group(1) if clause else '', len(runs), NEEDS[key]))
-with open({1: '/verif/seeded/RESULTS.md', 2: '/verif/seeded/RESULTS_round2.md', 3: '/verif/seeded/RESULTS_round3.md'}[ROUND], 'w') as f:
+    rows.append((PREFIX + key, p, ' / '.join(f"{r.get('stage','').replace('seeded2-','').replace('seeded3-','').replace('seeded4-','').replace('seeded-results','run')}:{r['verdict']}" for r in runs) or 'NOT-RUN', clause.group(1) if clause else '', len(runs), NEEDS[key]))
+with open({1: '/verif/seeded/RESULTS.md', 2: '/verif/seeded/RESULTS_round2.md', 3: '/verif/seeded/RESULTS_round3.md', 4: '/verif/seeded/RESULTS_round4.md'}[ROUND], 'w') as f:
     f.write("# Independent seeded changes (one sub-agent per property, two variants each)\n\n")
     f.write("Each change compiles, passes the 96 existing tests, and has a demonstration that fails with it and passes without it (confirmed in a scratch worktree). `check runs` counts how often the target check was run against it (a second run follows a strengthening of the check, see DESIGN.md section 13).\n\n")
     f.write("| id | property | quick check verdict | first clause | check runs | needs |\n|---|---|---|---|---|---|\n")
